@@ -9,7 +9,8 @@
 //
 // Case kinds
 //
-//	step     <cmd> <instant: unix seconds, truncated to the hour> <zone offset s> <before tree> <after tree> <exit> <stdout of cmd>
+//	step     <cmd> <instant: unix seconds, truncated to the hour> <zone offset s>
+//	         <TMPDIR: default | samefs | otherfs | missing | notdir> <TMPDIR contents changed> <before tree> <after tree> <exit> <stdout of cmd>
 //	         <telemetry dir> <env stdout after> <lib mode after> <lib date after>
 //	nodir    <cmd> <zone offset s> <working dir tree before> <after> <exit> <stdout>
 //	         (HOME and XDG_CONFIG_HOME unset: os.UserConfigDir fails, no telemetry directory;
@@ -29,7 +30,9 @@ import (
 	"path/filepath"
 	"sort"
 	"strconv"
+	"strings"
 	"sync"
+	"syscall"
 	"time"
 
 	"golang.org/x/telemetry/internal/telemetry"
@@ -377,13 +380,101 @@ func (u *unit) genZone() zone {
 	}
 }
 
-func runCmd(cfg string, arg string, z zone) (stdout []byte, exit int) {
+// The temporary directory of the process environment (TMPDIR): a command that
+// promises to change only the mode file must work, and leave no litter, wherever
+// TMPDIR points - in particular on another file system than the configuration
+// directory (separate /home, tmpfs /tmp), where a rename from it cannot work.
+const (
+	tmpDefault = iota // TMPDIR unset
+	tmpSameFs         // a fresh directory on the file system of the configuration directory
+	tmpOtherFs        // a fresh directory on another file system (/dev/shm), if the machine has one
+	tmpMissing        // a path that does not exist
+	tmpNotDir         // a regular file
+)
+
+var tmpKindNames = []string{"default", "samefs", "otherfs", "missing", "notdir"}
+var otherFsRoot string // "" when no second writable file system was found
+
+func deviceOf(path string) (uint64, bool) {
+	fi, err := os.Stat(path)
+	if err != nil {
+		return 0, false
+	}
+	st, ok := fi.Sys().(*syscall.Stat_t)
+	if !ok {
+		return 0, false
+	}
+	return uint64(st.Dev), true
+}
+
+func findOtherFs() {
+	here, ok := deviceOf(root)
+	if !ok {
+		return
+	}
+	for _, cand := range []string{"/dev/shm", "/run/shm", "/run/lock", "/var/tmp", "/run"} {
+		if d, ok := deviceOf(cand); ok && d != here {
+			if p, err := os.MkdirTemp(cand, "vh_cli"); err == nil {
+				otherFsRoot = p
+				return
+			}
+		}
+	}
+}
+
+// tmpFor prepares the TMPDIR of the given kind below the unit's directory and
+// returns its path ("" = leave TMPDIR unset) and the kind actually used.
+func (u *unit) tmpFor(cfg string, kind int) (string, int) {
+	switch kind {
+	case tmpSameFs:
+		p := filepath.Join(cfg, "tmp-same")
+		os.MkdirAll(p, 0777)
+		return p, kind
+	case tmpOtherFs:
+		if otherFsRoot == "" {
+			u.Note("no-second-file-system")
+			return u.tmpFor(cfg, tmpSameFs)
+		}
+		p, err := os.MkdirTemp(otherFsRoot, "t")
+		if err != nil {
+			return u.tmpFor(cfg, tmpSameFs)
+		}
+		return p, kind
+	case tmpMissing:
+		return filepath.Join(cfg, "no-such-tmp"), kind
+	case tmpNotDir:
+		p := filepath.Join(cfg, "tmp-file")
+		os.WriteFile(p, []byte("x"), 0666)
+		return p, kind
+	}
+	return "", tmpDefault
+}
+
+func (u *unit) genTmpKind() int {
+	switch r := u.rnd.Intn(100); {
+	case r < 30:
+		return tmpDefault
+	case r < 50:
+		return tmpSameFs
+	case r < 85:
+		return tmpOtherFs
+	case r < 93:
+		return tmpMissing
+	default:
+		return tmpNotDir
+	}
+}
+
+func runCmd(cfg string, arg string, z zone, tmpdir string) (stdout []byte, exit int) {
 	cmd := exec.Command(gotelemetry, arg)
 	tz := "UTC"
 	if z.path != "" {
 		tz = z.path
 	}
 	cmd.Env = []string{"XDG_CONFIG_HOME=" + cfg, "HOME=" + filepath.Join(cfg, "home"), "PATH=" + os.Getenv("PATH"), "TZ=" + tz}
+	if tmpdir != "" {
+		cmd.Env = append(cmd.Env, "TMPDIR="+tmpdir)
+	}
 	var so bytes.Buffer
 	cmd.Stdout = &so
 	err := cmd.Run()
@@ -429,11 +520,25 @@ func (u *unit) caseSequence() {
 		z := u.genZone()
 		before := snapshot(tdir)
 		d0 := days(time.Now())
-		stdout, exit := runCmd(cfg, arg, z)
+		tmpdir, tmpKind := u.tmpFor(cfg, u.genTmpKind())
+		var tmpBefore *node
+		if tmpKind == tmpSameFs || tmpKind == tmpOtherFs {
+			tmpBefore = snapshot(tmpdir)
+		}
+		stdout, exit := runCmd(cfg, arg, z, tmpdir)
 		t1 := time.Now()
 		d1 := days(t1)
 		after := snapshot(tdir)
-		envOut, _ := runCmd(cfg, "env", u.genZone())
+		tmpChanged := false
+		if tmpBefore != nil {
+			var a, b []string
+			a, b = encTree(tmpBefore, a), encTree(snapshot(tmpdir), b)
+			tmpChanged = strings.Join(a, " ") != strings.Join(b, " ")
+		}
+		if tmpKind == tmpOtherFs {
+			os.RemoveAll(tmpdir)
+		}
+		envOut, _ := runCmd(cfg, "env", u.genZone(), "")
 		lm, ld := libMode(tdir)
 		if d0 != d1 {
 			continue // the UTC date changed while the command ran: "today" is ambiguous
@@ -442,7 +547,8 @@ func (u *unit) caseSequence() {
 			u.Note("local-date-differs-from-utc-date")
 		}
 		u.Note(fmt.Sprintf("zone%+d", z.off))
-		f := []string{"step", arg, I(t1.Unix() - t1.Unix()%3600), I(int64(z.off))}
+		u.Note("tmpdir-" + tmpKindNames[tmpKind])
+		f := []string{"step", arg, I(t1.Unix() - t1.Unix()%3600), I(int64(z.off)), tmpKindNames[tmpKind], B(tmpChanged)}
 		f = encTree(before, f)
 		f = encTree(after, f)
 		// the temporary directory's name is not part of the case: replace it
@@ -585,6 +691,10 @@ func main() {
 	const workers = 6
 	seed := Seed()
 	makeZones()
+	findOtherFs()
+	if otherFsRoot != "" {
+		defer os.RemoveAll(otherFsRoot)
+	}
 	for base := 0; nCases < n; base += workers {
 		us := make([]*unit, workers)
 		var wg sync.WaitGroup
